@@ -33,6 +33,10 @@ def configs(tier, family):
                         "count": rng.choice([3, 8]) if tier == "quick" else rng.choice([8, 30]),
                         "payload": "small", "delay": 0, "initiator": "cfinish", "busy": False,
                         "seed": vlib.seed() * 100 + rep, "sessions": rng.choice([3, 5, 6]) if tier == "quick" else rng.choice([6, 9, 12])})
+        for rep in range(2 if tier == "quick" else 10):   # all sessions over one transport kind, more traffic
+            out.append({"transport": "ws", "buffer": rng.choice([0, 1, 8]), "senders": 1, "count": 30,
+                        "payload": "small", "delay": 0, "initiator": "cfinish", "busy": False,
+                        "seed": vlib.seed() * 100 + 50 + rep, "sessions": 6})
         return out
     reps = 1 if tier == "quick" else 6
     for rep in range(reps):
